@@ -572,7 +572,7 @@ class Engine:
             # build the processes' views
             self.state.build_topology_views()
             # get processes and topology from the store
-            self.processes = self.state.get_processes()
+            self.processes = self.state.get_processes() or {}
             self.steps = self.state.get_steps() or {}
             self.flow = self.state.get_flow() or {}
             self.topology = self.state.get_topology()
